@@ -77,6 +77,10 @@ def gen(tier, rnd):
     for t in ['text/html', 'application/json; charset=utf-8', 'text/plain; q=0.5', 'application/vnd.x+json', 'image/*', 'multipart/form-data; boundary=abc', 'text/x-foo+xml;a=b;c=d']:
         L.append('hdrw Content-Type ' + hx(t))
         for k in range(len(t) + 1): L.append('hdr Content-Type ' + hx(t[:k]))
+    # every quality value a media type can carry (hundredths 0..100), written by the typed header and read back
+    for qv in range(101):
+        L.append('hdrw Content-Type ' + hx('text/plain; q=%s' % ('1' if qv == 100 else '0.%02d' % qv)))
+        L.append('hdrw Content-Type ' + hx('@%s; q=%s' % (rnd.choice(['text/plain', 'application/json', 'application/xhtml+xml', 'image/png']), '1' if qv == 100 else '0.%02d' % qv)))
     for t in ['text/html', 'text/html, application/json;q=0.5', 'text/html,', '', 'a', 'text/html,,x', '*/*', 'text/*;q=0.3, text/html;q=0.7, text/html;level=1', 'text/html ,x/y', 'text/html, \xff', 'text/html,\x00',
               'audio/*; q=0.2, audio/basic', 'text/html,  image/png', ',', 'text/html;q=0.5,', 'text/html, image/png,']:
         for k in range(len(t) + 1): L.append('hdr Accept ' + hx(t[:k]))
